@@ -222,6 +222,10 @@ class FakeOsPath:
     def exists(self, path):
         return path in self.fs.files
 
+    def __getattr__(self, name):
+        import os
+        return getattr(os.path, name)
+
 
 class FakeOs:
     """stand-in for the ``os`` name inside ledger.pin"""
@@ -252,6 +256,12 @@ class FakeOs:
     F_OK, R_OK, W_OK, X_OK = 0, 4, 2, 1
 
     unlink = remove
+
+    def __getattr__(self, name):
+        # whatever else of ``os`` the code under test comes to use (stat, fsync, getpid ...) is the
+        # real module's - whose path functions GlobalRoute routes here for the modelled directory
+        import os
+        return getattr(os, name)
 
     def rename(self, src, dst):
         if src not in self.fs.files:
@@ -314,7 +324,7 @@ class GlobalRoute:
                 if fs.dead:
                     raise Crash()
                 if r in fs.files:
-                    return os.stat_result((_stat.S_IFREG | 0o600, 1, 1, 1, 0, 0, len(fs.files[r]), 0, 0, 0))
+                    return os.stat_result((_stat.S_IFREG | fs.modes.get(r, 0o600), 1, 1, 1, 0, 0, len(fs.files[r]), 0, 0, 0))
                 if r.rstrip("/") == self.prefix.rstrip("/"):
                     return os.stat_result((_stat.S_IFDIR | 0o700, 1, 1, 1, 0, 0, 0, 0, 0, 0))
                 raise FileNotFoundError(2, "No such file or directory", r)
